@@ -24,13 +24,15 @@ Theorem C16_nothing_else_copied :
 Proof. exact save_copy_sound. Qed.
 Print Assumptions C16_nothing_else_copied.
 
-(* the rewritten members are exactly the cached - possibly edited - element trees, in file-list order *)
+(* the rewritten members are exactly the cached - possibly edited - element trees: one member per distinct path among the rewritten Files, in order of first occurrence, carrying the tree of the last File with that path *)
 Theorem C16_edits_are_what_is_saved :
   forall a fs roots out, save_with a fs roots = Ok out ->
+  let content := filter (fun f => mem_str (f_type f) save_overwrite_types) fs in
   exists copied written, out = copied ++ written
     /\ Forall (fun nm => exists i, snd nm = WCopy i) copied
-    /\ mapM (fun f => t <- roots f ;; Ok (f_path f, WXml t))
-            (filter (fun f => mem_str (f_type f) save_overwrite_types) fs) = Ok written.
+    /\ Forall2 (fun p nm => exists f t, last_with_path p content = Some f /\ roots f = Ok t
+                                        /\ nm = (p, WXml t))
+               (dedup_names (map f_path content) []) written.
 Proof. exact save_written_exact. Qed.
 Print Assumptions C16_edits_are_what_is_saved.
 
@@ -44,12 +46,14 @@ Theorem C16_same_member_names :
 Proof. exact save_names. Qed.
 Print Assumptions C16_same_member_names.
 
-(* known finding D18: two relationships to one content part write that member twice *)
-Theorem C16_duplicate_member_refuted :
-  exists a fs roots out,
-  save_with a fs roots = Ok out /\ ~ NoDup (map fst out) /\ NoDup (map fst a).
-Proof. exact save_duplicate_refuted. Qed.
-Print Assumptions C16_duplicate_member_refuted.
+(* the former finding D18 (two relationships to one content part wrote that member twice), repaired in afbdcde: the member is written once, the last File wins *)
+Theorem C16_duplicate_member_repaired :
+  map f_path (filter is_overwritten dup_files) = [dup_path; dup_path]
+  /\ save_with dup_archive dup_files dup_roots = Ok dup_out
+  /\ count_occ str_eq_dec (map fst dup_out) (dup_path) = 1%nat
+  /\ NoDup (map fst dup_out) /\ NoDup (map fst dup_archive).
+Proof. exact save_duplicate_repaired. Qed.
+Print Assumptions C16_duplicate_member_repaired.
 
 (* saving the saved file again reproduces its content parts: a merged tree is a fixed point of merging (hypotheses as in C06) *)
 Theorem C16_second_save_unchanged_partial :
@@ -72,11 +76,12 @@ Theorem C16_content_types :
 Proof. exact content_types_spec. Qed.
 Print Assumptions C16_content_types.
 
-(* RE-EXTRACTION: a content part as written by save() is a fixed point of merging, and extracting it again (same options) gives the very collector of the original part - identical output (hypotheses of merge idempotence; parse o serialise = id is lxml's, observed by the harness) *)
+(* RE-EXTRACTION: a content part as written by save() is a fixed point of merging, and extracting it again (same options) gives the very collector of the original part - identical output (hypotheses of merge idempotence; the part is not also related under a non-content type; parse o serialise = id is lxml's, observed by the harness) *)
 Theorem C16_reextract_partial :
   forall pt a o out fs f r rels,
   save a o = Ok out -> files a = Ok fs -> In f fs ->
   mem_str (f_type f) content_file_types = true ->
+  same_kind_as_saved fs f = true ->
   member_xml a (f_path f) = Ok r -> file_rels_or_empty a fs f = Ok rels ->
   rels_ok (merge_env o rels) -> wf_ptag pt (view r) = true -> wf_pr (view r) = true ->
   exists t, In (f_path f, WXml t) out /\ part_root a fs o f = Ok t
@@ -95,3 +100,37 @@ Theorem C16_written_is_part_root :
     /\ n = f_path f /\ part_root a fs o f = Ok t.
 Proof. exact save_written_is_part_root. Qed.
 Print Assumptions C16_written_is_part_root.
+
+(* EXACTLY THE INPUT'S MEMBER NAMES, EACH ONCE: for every archive with pairwise distinct member names, whenever save() succeeds the saved archive's member names are a permutation of the input's and pairwise distinct - whatever the relationships (several may point at one part) *)
+Theorem C16_each_member_name_once :
+  forall a o out,
+  save a o = Ok out -> NoDup (map fst a) ->
+  Permutation (map fst out) (map fst a) /\ NoDup (map fst out).
+Proof. exact save_names_once_save. Qed.
+Print Assumptions C16_each_member_name_once.
+
+(* the rewritten members have pairwise distinct names, for every archive and file list *)
+Theorem C16_written_paths_distinct :
+  forall a fs roots out, save_with a fs roots = Ok out ->
+  NoDup (map fst (filter is_written_xml out)).
+Proof. exact save_written_paths_nodup. Qed.
+Print Assumptions C16_written_paths_distinct.
+
+(* the same for replace_docx_text *)
+Theorem C16_replace_keeps_member_names :
+  forall a o pairs out,
+  replace_docx a o pairs = Ok out -> NoDup (map fst a) ->
+  Permutation (map fst out) (map fst a) /\ NoDup (map fst out).
+Proof. exact replace_docx_names_once. Qed.
+Print Assumptions C16_replace_keeps_member_names.
+
+(* the extra clause of the re-extraction theorem is needed: a part related both as officeDocument and under a non-content type is written unmerged *)
+Theorem C16_reextract_alias_refuted :
+  exists pt a o out fs f r rels,
+    save a o = Ok out /\ files a = Ok fs /\ In f fs
+    /\ mem_str (f_type f) content_file_types = true
+    /\ member_xml a (f_path f) = Ok r /\ file_rels_or_empty a fs f = Ok rels
+    /\ rels_ok (merge_env o rels) /\ wf_ptag pt (view r) = true /\ wf_pr (view r) = true
+    /\ ~ exists t, In (f_path f, WXml t) out /\ part_root a fs o f = Ok t.
+Proof. exact C16_reextract_counterexample. Qed.
+Print Assumptions C16_reextract_alias_refuted.
